@@ -1,5 +1,5 @@
 (* Props_C14.v — C14: round-robin probing: every active member is probed within 2n-1 rounds. *)
-From Foca Require Import Laws MembersM ProbeM FocaM L_Members L_MembersInv L_RoundRobin L_RoundSuspect L_RoundPing Concrete.
+From Foca Require Import Laws MembersM ProbeM FocaM L_Members L_MembersInv L_RoundRobin L_RoundSuspect L_RoundPing L_RotationFrame Concrete.
 
 Section C14.
 Context {Id Addr : Type} {IO : IdOps Id Addr}.
@@ -63,6 +63,18 @@ Theorem C14_round_pings_next (rnd : oracle) (f : @foca Id Addr HO) :
   end.
 Proof. exact (step_round_pings_next rnd f). Qed.
 
+(* ROTATION FRAME: nothing that merely sends touches the rotation - the member list (order and cursor
+   included) is exactly the same after gossip(), announce(), broadcast(), add_broadcast(), set_config(),
+   a periodic timer or the indirect-stage timer *)
+Theorem C14_sending_keeps_rotation (rnd : oracle) (f : @foca Id Addr HO) (i : @input Id) :
+  match i with
+  | IGossip | IAnnounce _ | IBroadcast | IAddBroadcast _ | ISetConfig _ => True
+  | ITimer (TSendIndirectProbe _ _) | ITimer (TPeriodicAnnounce _) | ITimer (TPeriodicAnnounceDown _) | ITimer (TPeriodicGossip _) => True
+  | _ => False
+  end ->
+  mems (fst (fst (fst (step rnd f i)))) = mems f.
+Proof. exact (sending_keeps_rotation rnd f i). Qed.
+
 End C14call.
 
 (* the bound is tight: a layout and shuffle where a member is missing from a window of 2n-2 *)
@@ -103,3 +115,4 @@ Proof. vm_compute. auto. Qed.
 Print Assumptions C14_round_terms.
 Print Assumptions C14_round_pings_next.
 Print Assumptions C14_round_example.
+Print Assumptions C14_sending_keeps_rotation.
